@@ -137,20 +137,30 @@ impl RdbEngine {
         // Note: We don't check bgsave_in_progress here because save() can be called
         // from within bgsave() thread. The caller is responsible for managing concurrency.
         
-        // Create temporary file
-        let temp_path = self.file_path.with_extension("tmp");
+        // Create temporary file. Every save gets one of its own: SAVE, BGSAVE and the auto-save
+        // thread can overlap, and two writers sharing one temporary file end up rewriting the
+        // dump in place after the first of them has renamed it.
+        static SAVE_SEQ: std::sync::atomic::AtomicU64 = std::sync::atomic::AtomicU64::new(0);
+        let seq = SAVE_SEQ.fetch_add(1, std::sync::atomic::Ordering::Relaxed);
+        let temp_path = self.file_path.with_extension(format!("tmp.{}.{}", std::process::id(), seq));
         
         println!("RDB: Starting dump to {}", temp_path.display());
         
         // Write to temporary file
-        self.write_snapshot(storage, &temp_path)?;
+        if let Err(e) = self.write_snapshot(storage, &temp_path) {
+            let _ = std::fs::remove_file(&temp_path);
+            return Err(e);
+        }
         
         #[cfg(feature = "verif-hooks")]
         crate::verif_hooks::point(crate::verif_hooks::RDB_RENAME_BEFORE, 0);
         
         // Atomic rename
         std::fs::rename(&temp_path, &self.file_path)
-            .map_err(|e| FerrousError::Io(format!("Failed to rename RDB file: {}", e)))?;
+            .map_err(|e| {
+                let _ = std::fs::remove_file(&temp_path);
+                FerrousError::Io(format!("Failed to rename RDB file: {}", e))
+            })?;
         
         #[cfg(feature = "verif-hooks")]
         crate::verif_hooks::point(crate::verif_hooks::RDB_RENAME_AFTER, 0);
